@@ -34,7 +34,7 @@ RealBranch == 0..(NBranch-1)
 Size == 0..MaxSize
 
 \* canonical branch of the tree made of the first n leaves of branch b
-CanonB(b, n) == IF b = Junk THEN Junk
+CanonB(b, n) == IF b = Junk \/ b \notin Branch THEN Junk      \* (an unrecognised observed root counts as junk)
                 ELSE IF b = 0 THEN 0
                 ELSE IF n <= ForkAt[b] THEN 0 ELSE b
 \* identity of a root hash: equal trees have equal roots, different trees different ones
